@@ -40,6 +40,9 @@ type colOpts struct {
 	proto        string
 	segmentReads bool
 	stopper      bool // a thread calls Stop() at an arbitrary point
+	// slowConsumer: after the first message the consumer is busy for 1.5 s of virtual time before it goes on
+	// draining (it "keeps draining" in the statement's sense; nothing may be lost over tcp meanwhile)
+	slowConsumer bool
 	threeWay     bool
 	// oracle, when set, replaces the per-client delivery oracle (scenarios whose clients share an
 	// observation domain cannot be judged client by client)
@@ -71,7 +74,13 @@ func colExpected(c colClient, proto string) ([]colmodel.Expect, bool) {
 
 func colScenario(name string, clients []colClient, o colOpts) *vsched.Scenario {
 	main := func() {
-		cp, err := collector.InitCollectingProcess(collector.CollectorInput{Address: colAddr, Protocol: o.proto, MaxBufferSize: 65535, TemplateTTL: 0})
+		// over tcp a template lives as long as its session whatever TemplateTTL says (one second here: a
+		// sender that pauses longer must still get its data decoded)
+		ttl := uint32(0)
+		if o.proto == "tcp" {
+			ttl = 1
+		}
+		cp, err := collector.InitCollectingProcess(collector.CollectorInput{Address: colAddr, Protocol: o.proto, MaxBufferSize: 65535, TemplateTTL: ttl})
 		if err != nil {
 			panic(err)
 		}
@@ -87,6 +96,11 @@ func colScenario(name string, clients []colClient, o colOpts) *vsched.Scenario {
 					return
 				}
 				delivered = append(delivered, m)
+				if o.slowConsumer && len(delivered) == 1 {
+					vsched.Quiesce() // every sender that can make progress without the consumer has done so
+					vsched.Advance(1500 * time.Millisecond)
+					vsched.Quiesce()
+				}
 			}
 		})
 		// the scenario starts once Start() has finished initialising (socket open and its service
